@@ -8,6 +8,7 @@ T = [
  ("C01-stale-wrotesemi-keyword", W("file","bash","i0","for i in $(a &); do b; done\n")),
  ("C01-single-heredoc-buried", W("file","bash","i0,sl","cat <<EOF\nbody\nEOF\n[[ a ]]\n")),
  ("C01-heredoc-pipe-test-let", W("file","bash","i0,bn","cat <<EOF |\nbody\nEOF\n[[ a ]]\n")),
+ ("C01-binnext-heredoc-nested", W("file","bash","i0,bn","cat <<EOF |\nbody\nEOF\n(t\n)\n")),
  ("C01-single-heredoc-in-heredoc", W("file","bash","i0,sl","cat <<A\n$(cat <<B\nr\nB\n)\nA\n")),
  ("C01-quoted-heredoc-backslash-newline", W("file","bash","i0","cat <<'EOF' \\\n\nx\nEOF\n")),
  ("C01-heredoc-then-multiline-subst", W("file","bash","i0","cat <<EOF | b $(\n)\nbody\nEOF\n")),
